@@ -46,6 +46,11 @@ def scenarios(thorough):
             out.append(cc.mk([P(1)], room=10, extra_client=[["read", 20], ["read", 20], ["readall"]], second=other(), drains=False,
                              faults={"send": [None] * nth + [e]}, apps={1: {"chunks": [40, 40, 40], "cl": "none"}},
                              adj={"outbuf_high_watermark": 30}, name="producer over watermark, send#%d fails %s" % (nth + 1, errno.errorcode[e])))
+    # the same with socket errors not logged
+    for e in (errno.EINVAL, errno.ETIMEDOUT):
+        out.append(cc.mk([P(1)], room=10, extra_client=[["read", 20], ["read", 20], ["readall"]], second=other(), drains=False,
+                         faults={"send": [None] * 2 + [e]}, apps={1: {"chunks": [40, 40, 40]}},
+                         adj={"outbuf_high_watermark": 30, "log_socket_errors": False}, name="producer over watermark, sends fail %s from #3 on, log_socket_errors off" % errno.errorcode[e]))
     for how in ("close", "reset"):
         out.append(cc.mk([P(1)], lookahead=1, room=10, extra_client=[["read", 5], [how]], second=other(), drains=False,
                          apps={1: {"chunks": [40, 40, 40], "cl": "none"}}, adj={"outbuf_high_watermark": 30},
